@@ -1,6 +1,8 @@
 package gen
 
 import (
+	"fmt"
+
 	"go.pennock.tech/tabular"
 	"go.pennock.tech/tabular/auto"
 	"go.pennock.tech/tabular/csv"
@@ -27,16 +29,21 @@ import (
 //	newrowother a pending row made by ANOTHER table's NewRowSizedFor (that table is Cap columns wide)
 //	mutate      change the (mutable) item of cell Cap of row Ref behind the cell's back, then call Cell.Update()
 //	            (Items[0] carries the new S/G/E/N); a no-op if that cell's item cannot be mutated
+//	prop        one step of a property history on a column (P; the column is P.Col modulo the columns the table has
+//	            at that moment, plus column 0): what the columns ask for when rendered is the last setting, whenever it was made
+//	rowerr      <row Ref of all rows created so far>.AddError(...): the application notes a problem of its own on a row,
+//	            pending or attached (only generated where asked for)
 //	zerorow     t.AddRow(new(tabular.Row))            (a zero-value row: not a separator, holds no cells, refuses Add)
 //
 // Ref is taken modulo the number of candidate rows; an operation without a
 // candidate is a counted no-op.
 type Op struct {
-	K     string `json:"k"`
-	Items []Item `json:"items,omitempty"`
-	Ref   int    `json:"ref,omitempty"`
-	Cap   int    `json:"cap,omitempty"`
-	To    int    `json:"to,omitempty"`
+	K     string  `json:"k"`
+	Items []Item  `json:"items,omitempty"`
+	Ref   int     `json:"ref,omitempty"`
+	Cap   int     `json:"cap,omitempty"`
+	To    int     `json:"to,omitempty"`
+	P     *PropOp `json:"p,omitempty"`
 }
 
 // Script is a build history plus the way the table was created.
@@ -96,6 +103,9 @@ type Model struct {
 	MaxEver    int     // historical maximum of header/row cell counts (of attached things)
 	Noops      int
 	// Facts for the non-trivial rules.
+	// AlignCode / SkipCode: what the property history so far leaves on each column (0 or absent: unset)
+	AlignCode, SkipCode                                                                               map[int]int
+	PropOps, UserErrs                                                                                 int
 	LateAdd, HdrAfterRows, ZeroCellRow, ZeroCellHdr, HasSep, Ragged, SepAdd, ReAdded, Mutated, Copied bool
 }
 
@@ -318,6 +328,34 @@ func (m *Model) Step(t tabular.Table, op Op) {
 		t.AddRow(r.Real)
 		m.Rows = append(m.Rows, r)
 		m.ReAdded = true
+	case "prop":
+		if op.P == nil {
+			m.Noops++
+			return
+		}
+		n := t.NColumns()
+		if m.AlignCode == nil {
+			m.AlignCode, m.SkipCode = map[int]int{}, map[int]int{}
+		}
+		al, sk := make([]int, n+1), make([]int, n+1)
+		for i := range al {
+			al[i], sk[i] = m.AlignCode[i], m.SkipCode[i]
+		}
+		ApplyProps(t, []PropOp{*op.P}, n, al, sk)
+		for i := range al {
+			m.AlignCode[i], m.SkipCode[i] = al[i], sk[i]
+		}
+		m.PropOps++
+		return
+	case "rowerr":
+		if len(m.All) == 0 {
+			m.Noops++
+			return
+		}
+		r := m.All[mod(op.Ref, len(m.All))]
+		m.UserErrs++
+		r.Real.AddError(fmt.Errorf("application error %d noted on a row", m.UserErrs))
+		return
 	case "zerorow":
 		r := &MRow{NilCells: true, Real: new(tabular.Row)}
 		t.AddRow(r.Real)
